@@ -1498,10 +1498,17 @@ def commit(
                 filter_callback = None
 
             trust_ctime = commit_config.get_boolean(b"core", b"trustctime", True)
+            honor_filemode = commit_config.get_boolean(
+                b"core", b"filemode", os.name != "nt"
+            )
 
             unstaged_changes = list(
                 get_unstaged_changes(
-                    index, r.path, filter_callback, trust_ctime=trust_ctime
+                    index,
+                    r.path,
+                    filter_callback,
+                    trust_ctime=trust_ctime,
+                    honor_filemode=honor_filemode,
                 )
             )
 
@@ -2008,10 +2015,16 @@ def add(
         preload_index = config.get_boolean(b"core", b"preloadIndex", False)
         trust_ctime = config.get_boolean(b"core", b"trustctime", True)
         precompose_unicode = config.get_boolean(b"core", b"precomposeunicode", False)
+        honor_filemode = config.get_boolean(b"core", b"filemode", os.name != "nt")
 
         all_unstaged_paths = list(
             get_unstaged_changes(
-                index, r.path, filter_callback, preload_index, trust_ctime
+                index,
+                r.path,
+                filter_callback,
+                preload_index,
+                trust_ctime,
+                honor_filemode=honor_filemode,
             )
         )
 
@@ -3931,6 +3944,7 @@ def status(
         except KeyError:
             max_stat = None
         precompose_unicode = config.get_boolean(b"core", b"precomposeunicode", False)
+        honor_filemode = config.get_boolean(b"core", b"filemode", os.name != "nt")
 
         unstaged_changes_tree = list(
             get_unstaged_changes(
@@ -3940,6 +3954,7 @@ def status(
                 preload_index,
                 trust_ctime,
                 max_stat,
+                honor_filemode,
             )
         )
 
